@@ -9,7 +9,12 @@ client input) is the flag `W.exited`.
 Ranking: no fatal outcome of `hostlist_create` (F1 repaired: done) ▸ the only exit reachable from a request line is the
 `hostlist_sort` assertion (done; known finding F19 — the hypothesis `NoSortAbort` below) ▸ `_handle_input` handles exactly
 the complete lines, in order, independent of packetisation (done) ▸ one answer per line (done, see also `Props/C04.lean`)
-▸ whole passes, any number of clients (done under `NoSortAbort`). -/
+▸ a line of `CP_LINEMAX` bytes or more is refused with 203, whatever it says (done: `C06_too_long`) ▸ whole passes, any
+number of clients (done under `NoSortAbort`).
+
+What reaches `_handle_input` is what `_handle_read` put into the client's input buffer: at most `size - used` bytes per
+pass (a chunk of 1000 when the buffer is full; it grows up to `MAX_CLIENT_BUF` = 1 MiB), see `Props/C09.lean`,
+`C09_read_is_prefix` and `C09_capacity`. -/
 namespace Pm.Props.C06
 open Pm Pm.Daemon Pm.Client Pm.Daemon.ClientPf
 
@@ -44,6 +49,56 @@ theorem C06_keeps_running_counterexample (w : W) (c : Cli) (hidle : c.cmd = none
   intro hall
   have := nodes_exit w c hidle h
   rw [hall, h0] at this; cases this
+
+/-! ## lines that are too long -/
+
+/-- **`203 Command too long`.**  `_parse_input` first cuts the line at its first NUL and strips white space at both ends; if
+    what is left has `CP_LINEMAX` = 131072 bytes or more (`TooLong line`), the answer is the line `203 Command too long`
+    followed by the prompt (unless the client has quit) — the branch falls through to the end of the function, unlike the
+    `208` branch — and nothing else happens, whatever the line says and whatever the client's state, even with a command
+    in progress (the length is tested before `c->cmd`): the world — devices, argument lists, counters, the other
+    clients, the exit flag — is unchanged; of the client only the output buffer changes; no command is created. -/
+theorem C06_too_long (w : W) (c : Cli) (line : Bytes) (h : TooLong line) :
+    parseLine w c line =
+      (w, { c with toBuf := c.toBuf ++ bstr "203 Command too long\r\n" ++ (if c.quit then [] else prompt) }) := by
+  rw [parseLine_tooLong w c line h]
+  have : render [item203] = bstr "203 Command too long\r\n" := by decide +kernel
+  rw [this]; simp [put, List.append_assoc]
+
+/-- `TooLong`, spelled out -/
+theorem C06_too_long_def (line : Bytes) :
+    TooLong line ↔ (stripWs (line.takeWhile (· != 0))).length ≥ 131072 := Iff.rfl
+
+/-- … and every shorter line is handled as before the length test: `208` while a command is in progress
+    (`C04_busy_is_208`), the keyword cascade otherwise -/
+theorem C06_not_too_long (w : W) (c : Cli) (line : Bytes) (h : ¬ TooLong line) :
+    parseLine w c line =
+      if c.cmd.isSome then (w, put c (bstr "208 Command in progress\r\n")) else plIdle w c (reqStr line) := by
+  rw [parseLine_eq]; unfold parseLine'; rw [if_neg h]
+  have : codeLine 208 ++ crlf = bstr "208 Command in progress\r\n" := by decide +kernel
+  rw [this]
+
+/-- The line is one reply-with-prompt line like `201`: in the terms of `C04_one_reply_per_line`, outcome (b) with no
+    informational lines and the terminal code 203. -/
+theorem C06_too_long_is_one_reply (w : W) (c : Cli) (line : Bytes) (h : TooLong line) :
+    outOf (parseLine w c line).1 (parseLine w c line).2 =
+      outOf w c ++ render ([Item.line 203 (bstr "Command too long")] ++ (if promptAfter c.quit 203 then [Item.prompt] else [])) ∧
+    (parseLine w c line).2.cmd = c.cmd ∧ (parseLine w c line).1 = w := by
+  rw [parseLine_tooLong w c line h]
+  refine ⟨?_, rfl, rfl⟩
+  cases hq : c.quit <;> simp [outOf, put, promptAfter, render, Item.render, List.append_assoc]
+
+/-- non-vacuity: 131072 times `x` and a line feed is too long; one `x` fewer is not (and is answered `201`) -/
+example : TooLong (List.replicate 131072 120 ++ [10]) := (tooLong_xs _).mpr (by decide)
+example : ¬ TooLong (List.replicate 131071 120 ++ [10]) := fun h => absurd ((tooLong_xs _).mp h) (by decide)
+/-- the client of the example world with `on t1` in progress: the long line is answered 203 *and* the prompt, the command
+    stays in progress -/
+example : (parseLine Ex.busyWorld Ex.busy (List.replicate 131072 120 ++ [10])).2.toBuf =
+      bstr "203 Command too long\r\npowerman> " ∧
+    (parseLine Ex.busyWorld Ex.busy (List.replicate 131072 120 ++ [10])).2.cmd = Ex.busy.cmd ∧
+    (parseLine Ex.busyWorld Ex.busy (List.replicate 131072 120 ++ [10])).1 = Ex.busyWorld := by
+  rw [C06_too_long _ _ _ ((tooLong_xs _).mpr (by decide))]
+  exact ⟨by decide +kernel, rfl, rfl⟩
 
 /-! ## `_handle_input` -/
 
